@@ -1,9 +1,9 @@
 #!/bin/bash
 # usage: harness/seed_regression_par.sh <workers> [seed-dir-glob]   — every seeded change against the quick check of its property,
 # in <workers> private worktree pairs /tmp/w/reg<i>/{verif,repo} (so /repo and /verif stay untouched); writes seeded/REGRESSION.md
-n=${1:-4}; glob=${2:-C*}
+n=${1:-4}; shift; globs=("$@"); [ ${#globs[@]} -eq 0 ] && globs=("C*")
 cd /verif
-seeds=($(ls -d seeded/$glob | sort))
+seeds=($(for g in "${globs[@]}"; do ls -d seeded/$g; done | sort))
 for i in $(seq 1 $n); do
   harness/mkworkspace.sh reg$i > /dev/null 2>&1
   cp -r /verif/lean/.lake /tmp/w/reg$i/verif/lean/ 2>/dev/null
@@ -27,7 +27,7 @@ worker() {
 }
 for i in $(seq 1 $n); do worker $i & done
 wait
-out=seeded/REGRESSION.md
+out=${REG_OUT:-seeded/REGRESSION.md}
 echo "# Seeded changes vs the quick checks ($(date -u +%FT%TZ), /repo $(git -C /repo log -1 --format=%h), /verif $(git log -1 --format=%h); run in $n private worktree pairs)" > $out
 echo "" >> $out; echo "| seed | result | violations (with input) | broken tie only |" >> $out; echo "|---|---|---|---|" >> $out
 cat /tmp/reg_*.txt | sort -t'|' -k2,2V >> $out
